@@ -1,6 +1,7 @@
 package main
 
 import (
+	"github.com/polydawn/rio/fs"
 	"hash/crc32"
 	"archive/zip"
 	"bytes"
@@ -247,14 +248,125 @@ func findAll(b, pat []byte) []int {
 	}
 }
 
+// zipOwnerExec: recipe "zipowner <hex(extra)|->" — the owner bits `ZipHdrToMetadata` reads from an extra field, compared
+// with the Lean model `zipOwnership` (the slice handed over has no spare capacity: Go would otherwise read on into
+// whatever follows the field).
+func zipOwnerExec(c *Ctx, op string) {
+	f := strings.Fields(op)
+	var extra []byte
+	if f[1] != "-" {
+		extra = []byte(unhx(f[1]))
+	}
+	extra = append(make([]byte, 0, len(extra)), extra...)
+	res := ""
+	func() {
+		defer func() {
+			if r := recover(); r != nil {
+				res = "panic"
+				c.PropFail("panic-zip", fmt.Sprintf("ZipHdrToMetadata panicked on an extra field: %v", r), op)
+			}
+		}()
+		var m fs.Metadata
+		h := &zip.FileHeader{Name: "x", Extra: extra}
+		h.SetMode(0644)
+		if err := ziptrans.ZipHdrToMetadata(h, &m); err != nil {
+			res = "err " + catOf(err)
+			if !strings.HasPrefix(catOf(err), "rio-") {
+				c.PropFail("uncategorized", "ZipHdrToMetadata returned a non-rio error category: "+catOf(err), op)
+			}
+		} else {
+			res = fmt.Sprintf("ok %d %d", m.Uid, m.Gid)
+		}
+	}()
+	c.H("zipowner:" + strings.Fields(res)[0])
+	c.EmitR(op, op, res)
+	c.Distinct(op)
+}
+
+// zipExtraExec: recipe "zipextra <uid> <gid>" — the owner blocks MetadataToZipHdr writes, compared with the model's `ownerExtra`
+func zipExtraExec(c *Ctx, op string) {
+	var m fs.Metadata
+	f := strings.Fields(op)
+	var u, g uint64
+	fmt.Sscan(f[1], &u)
+	fmt.Sscan(f[2], &g)
+	m.Uid, m.Gid = uint32(u), uint32(g)
+	m.Name = fs.MustRelPath("x")
+	m.Type = fs.Type_File
+	var h zip.FileHeader
+	ziptrans.MetadataToZipHdr(&m, &h)
+	c.EmitR(op, op, hx(string(h.Extra)))
+}
+
 func zipfuzzEngine(c *Ctx) {
 	if ls := replayLines(); ls != nil {
 		for _, op := range ls {
 			if strings.HasPrefix(op, "zipfuzz ") {
 				zipfuzzExec(c, op)
+			} else if strings.HasPrefix(op, "zipowner ") {
+				zipOwnerExec(c, op)
+			} else if strings.HasPrefix(op, "zipextra ") {
+				zipExtraExec(c, op)
 			}
 		}
 		return
+	}
+	// the owner parser alone against its model: every cut owner block, what the packer writes, and random fields
+	zipOwnerExec(c, "zipowner -")
+	for _, ex := range ownerExtras() {
+		zipOwnerExec(c, "zipowner "+hx(string(ex)))
+	}
+	nOwn := 1500
+	if c.Tier == "thorough" {
+		nOwn = 40000
+	}
+	for k := 0; k < nOwn; k++ {
+		var ex []byte
+		for b := 0; b < 1+c.Intn(3); b++ {
+			id := []uint16{0x7875, 0x7855, 0x5455, 0x0001, uint16(c.Rand())}[c.Intn(5)]
+			l := c.Intn(14)
+			decl := l
+			if c.Chance(1, 6) {
+				decl = c.Intn(20)
+			}
+			blk := []byte{byte(id), byte(id >> 8), byte(decl), 0}
+			for i := 0; i < l; i++ {
+				v := byte(c.Rand())
+				if c.Chance(1, 2) {
+					v = []byte{0, 1, 2, 4, 8}[c.Intn(5)]
+				}
+				blk = append(blk, v)
+			}
+			ex = append(ex, blk...)
+		}
+		if c.Chance(1, 8) && len(ex) > 0 {
+			ex = ex[:c.Intn(len(ex))]
+		}
+		if c.Chance(1, 5) { // what MetadataToZipHdr writes
+			var m fs.Metadata
+			m.Uid, m.Gid = uint32(c.Rand()), uint32(c.Rand())
+			if c.Chance(1, 2) {
+				m.Uid, m.Gid = uint32(c.Intn(70000)), uint32(c.Intn(70000))
+			}
+			m.Name = fs.MustRelPath("x")
+			m.Type = fs.Type_File
+			var h zip.FileHeader
+			ziptrans.MetadataToZipHdr(&m, &h)
+			ex = h.Extra
+			// archive/zip appends its own timestamp block when the time is set; keep only the owner blocks
+			if len(ex) > 23 {
+				ex = ex[:23]
+			}
+			zipExtraExec(c, fmt.Sprintf("zipextra %d %d", m.Uid, m.Gid))
+			exp := fmt.Sprintf("ok %d %d", m.Uid, m.Gid)
+			var back fs.Metadata
+			hh := &zip.FileHeader{Name: "x", Extra: ex}
+			hh.SetMode(0644)
+			if e := ziptrans.ZipHdrToMetadata(hh, &back); e != nil || fmt.Sprintf("ok %d %d", back.Uid, back.Gid) != exp {
+				c.PropFail("roundtrip-tree", fmt.Sprintf("owner %d:%d written by MetadataToZipHdr is read back as %d:%d (%v)", m.Uid, m.Gid, back.Uid, back.Gid, e), "zipowner "+hx(string(ex)))
+			}
+		}
+		zipOwnerExec(c, "zipowner "+hx(string(ex)))
 	}
 	n := 12
 	if c.Tier == "thorough" {
